@@ -119,6 +119,12 @@ def run(check, an: Analysis):
                     '__aenter__ hands the duty to __aexit__')
     check.rule('D', 'never negative: each debit dominated by `supply._available >= amount`')
     check.rule('S', 'claim test, borrow wait and debit guard are the same predicate')
+    # the borrow wait hands out resources on the strength of "await c returns only while c
+    # holds": decided here for the comparison conditions that are awaited (C08 EXIT-PRED)
+    from . import c08
+    for qn in (c08.COMPARISON,):
+        c08._check_exit_pred(check, an, Callee(an.method(c08.CONDITION, '__await__'), qn),
+                             'Condition.__await__[%s]' % qn.rsplit('.', 1)[-1], rule='S')
     check.rule('C', 'claim never waits before taking; unavailable => ResourcesUnavailable')
     check.rule('G', 'forced close: GeneratorExit branch suspension free, both compensations '
                     'dispatched')
